@@ -1395,8 +1395,18 @@ func (p *Printer) command(cmd Command, redirs []*Redirect) (startRedirs int) {
 			p.space()
 		}
 		p.advanceLine(cmd.Body.Pos().Line())
-		p.comments(cmd.Body.Comments...)
+		// Comments after the end of the body, such as one following a
+		// redirection, must stay behind the comments inside the body.
+		var endComs []Comment
+		for i, c := range cmd.Body.Comments {
+			if cmd.Body.Cmd != nil && c.End().After(cmd.Body.Cmd.End()) {
+				endComs = cmd.Body.Comments[i:]
+				break
+			}
+			p.comments(c)
+		}
 		p.stmt(cmd.Body)
+		p.comments(endComs...)
 	case *CaseClause:
 		p.w.WriteString("case ")
 		p.word(cmd.Word)
